@@ -68,7 +68,7 @@ theorem KPos.withToks {L : Lexer} (h : KPos L) {ts : List TokInfo}
 /-- every primitive preserves the positional invariant -/
 theorem step_KPos (cfg : Cfg) (o : Op) (L : Lexer) (h : KPos L) : KPos (step cfg o L).2 := by
   cases o <;> simp only [step]
-  case rest | lastTok | lastDefaultTok | secondLastDefaultTok | hasCheckpoint | nesting | modeDepth | hasMark | litIsEmpty => exact h
+  case rest | lastTok | lastDefaultTok | secondLastDefaultTok | hasCheckpoint | nesting | modeDepth | hasMark | litIsEmpty | loopProbe => exact h
   case pendingText => exact h.pendingTextFrom _ _ _
   case pendingTextToMark => exact h.pendingTextFrom _ _ _
   case pendingTextWithPrev => exact h.pendingTextFrom _ _ _
@@ -136,7 +136,6 @@ theorem step_KPos (cfg : Cfg) (o : Op) (L : Lexer) (h : KPos L) : KPos (step cfg
     · exact { h' with }
     · exact { h'.addStringLiteralFromSrc (cfg := cfg) L.lit.lastEnd (some (L.curByte - back)) with }
   case litAddDecoded cs => exact { h.addStringLiteral cs with }
-  case loopCheck => split <;> first | exact h | exact { h with }
   case emitEofAtCursor =>
     have h' := h.lastLineOrAdd (cfg := cfg)
     refine h'.bufAddToken ?_
